@@ -1031,6 +1031,8 @@ def call(self, fn, args, kwargs, node=None):
             return self.call_closure(Closure(self.funcs.get(q), q, [], self_obj=_NOSELF), args, kwargs)
     if isinstance(fn, type):
         return self.instantiate(fn, args, kwargs)
+    if isinstance(fn, SObj) and (self.find_method(fn.cls, "__call__") or f"{fn.cls.__qualname__}.__call__" in self.contracts):
+        return self.call_method(fn, "__call__", args, kwargs)
     return self.call_builtin(fn, args, kwargs)
 
 
